@@ -605,7 +605,53 @@ func (hg *histGen) emitPattern() {
 	a := g.Intn(nO)
 	b := g.Intn(nO)
 	r := g.Intn(len(hg.mregs))
-	switch g.Intn(11) {
+	switch g.Intn(12) {
+	case 11: // sibling selections: two or three filters on one parent whose source (or name) lists share their
+		// first entries and differ in the rest; every sibling is linted after the last one was made
+		if len(hg.mregs) >= 4 {
+			hg.emitLint(a, r, false)
+			return
+		}
+		srcs := hg.mregs[r].sourceSet(hg.meta)
+		names := hg.mregs[r].names()
+		if len(srcs) < 3 || len(names) < 6 {
+			r = 0
+			srcs = hg.mregs[0].sourceSet(hg.meta)
+			names = hg.mregs[0].names()
+		}
+		var kids []int
+		nk := g.Range(2, 3)
+		if g.Chance(0.7) {
+			head := []string{pick(g, srcs)}
+			if g.Chance(0.3) {
+				head = append(head, pick(g, srcs))
+			}
+			for k := 0; k < nk; k++ {
+				list := append([]string(nil), head...)
+				for t := g.Range(1, 2); t > 0; t-- {
+					list = append(list, pick(g, srcs))
+				}
+				kids = append(kids, hg.emitFilterOpts(r, &FilterOpts{IncludeSources: list}))
+			}
+		} else {
+			var head []string
+			for _, j := range g.subset(len(names), g.Range(1, 4)) {
+				head = append(head, names[j])
+			}
+			for k := 0; k < nk; k++ {
+				list := append([]string(nil), head...)
+				for t := g.Range(1, 3); t > 0; t-- {
+					list = append(list, pick(g, names))
+				}
+				kids = append(kids, hg.emitFilterOpts(r, &FilterOpts{IncludeNames: list}))
+			}
+		}
+		for _, c := range kids {
+			if c >= 0 {
+				hg.emitLint(a, c, false)
+			}
+		}
+		hg.emitLint(a, r, g.Chance(0.3))
 	case 10: // two option values built side by side from the same first profile, then used one after the other (and again)
 		pn := sortedKeys(harnessProfiles)
 		if len(pn) < 3 || len(hg.mregs) >= 5 {
